@@ -6,7 +6,7 @@ ROOT = os.path.dirname(os.path.dirname(os.path.abspath(__file__)))
 SEED_REPO = os.environ.get("SEED_REPO", "/repo")
 ENV = dict(os.environ, GOFLAGS="-mod=mod", GOPROXY="off", GOSUMDB="off", GOTOOLCHAIN="local", VERIF_REPO=SEED_REPO,
            VERIF_EVIDENCE_DIR=os.path.join(ROOT, "work", "seed-evidence"))
-d = sys.argv[1]
+d = os.path.abspath(sys.argv[1])
 if subprocess.run(["git", "-C", SEED_REPO, "status", "--porcelain"], stdout=subprocess.PIPE, text=True).stdout.strip():
     sys.exit(SEED_REPO + " is not clean")
 res = {"change": d, "runs": []}
